@@ -574,3 +574,10 @@ SUBS = [
     Sub("fmt", strat_fmt, run_fmt, quick=48000, thorough=1500000, about="ParameterFormatter strings parsed back, exact Decimal rules"),
     Sub("report", strat_report, run_report, quick=640, thorough=12000, about="report / preface / result dict of fitted problems parsed back"),
 ]
+
+
+def extra(tier, seed):
+    """thorough tier: coverage-guided campaign (atheris / libFuzzer) over the same strategy and oracle, see kverif/fuzz.py"""
+    from ..fuzz import thorough_extra
+
+    return thorough_extra(PROPERTY, [("fmt", 40000, 16)], tier, seed)
